@@ -1,11 +1,105 @@
-"""Engine-K job for C01: index arithmetic that can raise."""
+"""Engine-K job for C01: index arithmetic that can raise.
+
+`_create_outside_package_class` indexes the module part of a qualified name; it is only ever called with the names that
+`_add_to_imports` put into `classes_outside_package`. The job evaluates `_add_to_imports` symbolically for a reference
+that matches no class of the package (the only way into that set), records every value added to the set together with
+its path condition, and proves that the path arithmetic of `_create_outside_package_class` cannot raise on any of them.
+"""
 from __future__ import annotations
 
-from kjobs.c10 import outside_no_dot
+import ast
+
+import z3
+
+from kjobs.c10 import _prefix, _replay_raises
+
+from safeds_stubgen.stubs_generator import _stub_string_generator as SG
+from vlib.ek.bstr import BStr, _and, _or, show
+from vlib.ek.evalr import Ev, SymObj, find_nodes
 from vlib.ek.job import THOROUGH, KJob
+
+
+class _SetRecorder:
+    def __init__(self, ev) -> None:
+        self.ev, self.items = ev, []
+        self.add = self._add
+        self._add.__func__._ek_stub = True  # type: ignore[attr-defined]
+
+    def _add(self, value):
+        self.items.append((self.ev.g, value))
+
+
+def _mk_module_id(plain: BStr, actual: BStr):
+    def _get_module_id(get_actual_id=False):
+        return actual if get_actual_id else plain
+
+    _get_module_id._ek_stub = True  # type: ignore[attr-defined]
+    return _get_module_id
+
+
+def _native(qname: str, module_id: str):
+    from types import SimpleNamespace
+
+    g = SG.StubsStringGenerator.__new__(SG.StubsStringGenerator)
+    g.api = SimpleNamespace(classes={}, reexport_map={})
+    g.classes_outside_package, g.module_imports = set(), set()
+    g._get_module_id = lambda get_actual_id=False: module_id  # noqa: ARG005
+    g._add_to_imports(qname)
+    return g
+
+
+def _recorded(qname: str, module_id: str):
+    g = _native(qname, module_id)
+    return bool(g.classes_outside_package), repr(sorted(g.classes_outside_package))
+
+
+def _replay_add_to_imports(qname: str, module_id: str):
+    """Native run: real StubsStringGenerator._add_to_imports on a generator whose package has no classes, then the real
+    _create_outside_package_class for everything it recorded."""
+    try:
+        g = _native(qname, module_id)
+    except Exception as e:  # noqa: BLE001
+        return True, f"_add_to_imports raised {type(e).__name__}: {e}"
+    bad = []
+    for q in sorted(g.classes_outside_package):
+        r = _replay_raises(q)
+        if r[0]:
+            bad.append((q, r[1]))
+    return (bool(bad), repr(bad))
 
 
 def placeholder_paths():
     job = KJob("C01")
-    outside_no_dot(job, 6 if THOROUGH else 4)
+    n = 6 if THOROUGH else 4
+    fn = SG.StubsStringGenerator._add_to_imports
+    node = find_nodes(fn, lambda nd: isinstance(nd, ast.FunctionDef))[0]
+    q = BStr.var("q", n)
+    mid = BStr.var("m", 3)
+    ev = Ev(node=node, globs=fn.__globals__)
+    rec, imports = _SetRecorder(ev), _SetRecorder(ev)
+    me = SymObj(api=SymObj(classes={}, reexport_map={}), classes_outside_package=rec, module_imports=imports,
+                _get_module_id=_mk_module_id(mid, mid))
+    ev.block(node.body, {"self": me, "import_qname": q}, z3.BoolVal(True))
+
+    # every recorded name goes through the path arithmetic of the placeholder writer
+    pfn, pnode, prefix = _prefix()
+    bad = []
+    for g, val in rec.items:
+        sub = Ev(node=pnode, globs=pfn.__globals__)
+        sub.block(prefix, {"class_path": val}, z3.BoolVal(True))
+        bad.append(_and(g, sub.raise_guard()))
+    job.prove("recorded_placeholder_names_never_raise", [q.wf(), mid.wf(), q.ln > 0],
+              z3.Not(_or(*bad)) if bad else z3.BoolVal(True),
+              decode=lambda m: {"qname": show(m, q), "module_id": show(m, mid)},
+              replay=lambda i: _replay_add_to_imports(i["qname"], i["module_id"]),
+              bound=f"every referenced qualified name up to {n} 7-bit characters (dots anywhere), module ids up to 3 "
+                    f"characters, no class of the package matching the reference")
+    job.reach("a_name_reaches_the_placeholder_set", [q.wf(), mid.wf(), q.ln > 0, _or(*[g for g, _ in rec.items])],
+              decode=lambda m: {"qname": show(m, q), "module_id": show(m, mid)},
+              confirm=lambda i: _recorded(i["qname"], i["module_id"]),
+              bound="same")
+    job.prove("add_to_imports_never_raises", [q.wf(), mid.wf(), q.ln > 0], z3.Not(ev.raise_guard()),
+              decode=lambda m: {"qname": show(m, q), "module_id": show(m, mid)},
+              replay=lambda i: _replay_add_to_imports(i["qname"], i["module_id"]),
+              bound="same")
     return job.result()
